@@ -13,6 +13,8 @@ package resmgr
 //@ ghost instrN int
 //@ ghost polN int
 //@ ghost polCfg any
+// polOK: the last policy.Reconfigure call succeeded
+//@ ghost polOK bool
 
 // the policy part of a configuration object (configuration objects are immutable snapshots)
 //@ pure polCfgOf(c cfgapi.ResmgrConfig) any
@@ -39,6 +41,9 @@ package resmgr
 //@   ensures[C13] result != nil ==> m.cfg == old(m.cfg) && instrN == old(instrN) + 2
 //@   ensures[C13] result != nil ==> polN <= old(polN) + 2
 //@   ensures[C13] result != nil && polN == old(polN) + 2 ==> polCfg == polCfgOf(old(m.cfg))
+//@   # rejected, but the previous configuration could be re-applied to the policy: the resource changes that
+//@   # re-application made are pushed to the runtime as well (C05/C13: every changed resource is pushed)
+//@   ensures[C05,C13] result != nil && polN > old(polN) && polOK ==> drained(nil) && pushN > old(pushN)
 
 // Start-up with the initial configuration is not verified (and not reachable from updateConfig once running).
 //@ assume-contract (*resmgr).start
